@@ -140,8 +140,15 @@ pub fn explore(
                                 kind: "answer-depends-on-history".into(),
                                 site: if super::c13::trivial_unique_vs_unknown(&ans, &expected[k]) {
                                     format!("{}/trivial-unique-vs-unknown", cfg.short())
+                                } else if cfg.is_slg() && super::c13::nonlinear_only(&ans, &expected[k]) {
+                                    // D1's signature: guidance with a repeated variable vs. the same
+                                    // guidance with the variables renamed apart (or none at all)
+                                    format!("{}/nonlinear-only", cfg.short())
                                 } else {
-                                    format!("{}/{}{}", cfg.short(), class, g.tag)
+                                    // the direction of the change is part of the root-cause discriminator:
+                                    // "a true goal is later refused" and "a false goal is later accepted"
+                                    // are different defects even on the same class of program
+                                    format!("{}/{}{}/fresh-{}-later-{}", cfg.short(), class, g.tag, expected[k].tag(), ans.tag())
                                 },
                                 what: format!(
                                     "{} after solving {:?}: `{}` -> {:?}, fresh solver -> {:?}",
